@@ -28,7 +28,8 @@ Record rstream := mkR {
   r_pend : bool;      (* is_pending_window_update *)
   r_isrecv : bool;    (* is_recv: the application still holds the receive handle *)
   r_base : Z;         (* ghost: the window size configured for this record (init at creation + acknowledged deltas) *)
-  r_done : bool       (* ghost: observed no longer receive-streaming, or untouched by a settings change *)
+  r_done : bool;      (* ghost: observed no longer receive-streaming (no further WINDOW_UPDATE is owed) *)
+  r_unl : bool        (* ghost: skipped by a settings iteration, i.e. no longer linked in the store *)
 }.
 
 Record rstate := mkK {
@@ -141,7 +142,7 @@ Definition release_stream (st : rstate) (key : N) (cap : Z) : routcome :=
       else
       let a := r_avail s + cap in
       let pend := match unclaimed (r_win s) a with Some _ => true | None => r_pend s end in
-      ROk (kput st1 (mkR (r_id s) (r_win s) a (r_infl s - cap) pend (r_isrecv s) (r_base s) (r_done s))) [])
+      ROk (kput st1 (mkR (r_id s) (r_win s) a (r_infl s - cap) pend (r_isrecv s) (r_base s) (r_done s) (r_unl s))) [])
   end.
 
 Fixpoint settings_streams (st : rstate) (delta : Z) (touched : list N) : routcome :=
@@ -151,6 +152,7 @@ Fixpoint settings_streams (st : rstate) (delta : Z) (touched : list N) : routcom
     match rfind key (k_strs st) with
     | None => RStuck 2
     | Some s =>
+      if r_unl s then RStuck 3 else
       let w := r_win s + delta in
       let a := r_avail s + delta in
       if negb (in_i32r w) || negb (in_i32r a) || (RMAXW <? w) then ROk st [RConnErr]
@@ -159,7 +161,7 @@ Fixpoint settings_streams (st : rstate) (delta : Z) (touched : list N) : routcom
          stall); increase: nothing is queued *)
       let pend := if delta <? 0 then match unclaimed w a with Some _ => true | None => r_pend s end
                   else r_pend s in
-      settings_streams (kput st (mkR (r_id s) w a (r_infl s) pend (r_isrecv s) (r_base s + delta) (r_done s))) delta t'
+      settings_streams (kput st (mkR (r_id s) w a (r_infl s) pend (r_isrecv s) (r_base s + delta) (r_done s) (r_unl s))) delta t'
     end
   end.
 
@@ -171,7 +173,7 @@ Fixpoint nodup_keysr (l : list N) : bool :=
 
 Definition mark_done (touched : list N) (l : list rstream) : list rstream :=
   map (fun s => if mem_key (r_id s) touched then s
-                else mkR (r_id s) (r_win s) (r_avail s) (r_infl s) (r_pend s) (r_isrecv s) (r_base s) true) l.
+                else mkR (r_id s) (r_win s) (r_avail s) (r_infl s) (r_pend s) (r_isrecv s) (r_base s) (r_done s) true) l.
 
 Definition rstep (st : rstate) (l : rlabel) : routcome :=
   match l with
@@ -180,7 +182,7 @@ Definition rstep (st : rstate) (l : rlabel) : routcome :=
     | Some _ => RStuck 10
     | None =>
       if negb ((init =? k_init st) || (init =? 0)) then RStuck 11
-      else ROk (kset_strs st (mkR key init init 0 false true init false :: k_strs st)) []
+      else ROk (kset_strs st (mkR key init init 0 false true init false false :: k_strs st)) []
     end
   | RRemove key =>
     match rfind key (k_strs st) with
@@ -212,7 +214,7 @@ Definition rstep (st : rstate) (l : rlabel) : routcome :=
           else if negb (in_i32r (r_win s - sz)) || negb (in_i32r (r_avail s - sz)) then ROk st1 [RConnErr]
           else
           let st2 := kput st1 (mkR (r_id s) (r_win s - sz) (r_avail s - sz) (r_infl s + sz)
-                                   (r_pend s) isrecv (r_base s) (r_done s)) in
+                                   (r_pend s) isrecv (r_base s) (r_done s) (r_unl s)) in
           let pad := sz - payload in
           if 0 <? pad then
             match release_stream st2 key pad with
@@ -228,9 +230,10 @@ Definition rstep (st : rstate) (l : rlabel) : routcome :=
     match rfind key (k_strs st) with
     | None => RStuck 19
     | Some s =>
-      if r_infl s <? to_release then RStuck 20            (* the code takes min(.., in_flight_recv_data) *)
+      if isrecv then RStuck 26                            (* OpaqueStreamRef::clear_recv_buffer clears is_recv first *)
+      else if r_infl s <? to_release then RStuck 20       (* the code takes min(.., in_flight_recv_data) *)
       else
-      let s' := mkR (r_id s) (r_win s) (r_avail s) (r_infl s - to_release) (r_pend s) isrecv (r_base s) (r_done s) in
+      let s' := mkR (r_id s) (r_win s) (r_avail s) (r_infl s - to_release) (r_pend s) isrecv (r_base s) (r_done s) (r_unl s) in
       if 0 <? to_release then release_conn (kput st s') to_release
       else ROk (kput st s') []
     end
@@ -238,7 +241,7 @@ Definition rstep (st : rstate) (l : rlabel) : routcome :=
     match rfind key (k_strs st) with
     | None => RStuck 21
     | Some s =>
-      let s' := mkR (r_id s) (r_win s) (r_avail s) 0 (r_pend s) (r_isrecv s) (r_base s) true in
+      let s' := mkR (r_id s) (r_win s) (r_avail s) 0 (r_pend s) (r_isrecv s) (r_base s) true (r_unl s) in
       if r_infl s =? 0 then ROk (kput st s') []
       else release_conn (kput st s') (r_infl s)
     end
@@ -273,13 +276,13 @@ Definition rstep (st : rstate) (l : rlabel) : routcome :=
     | None => RStuck 25
     | Some s =>
       if negb streaming then
-        ROk (kput st (mkR (r_id s) (r_win s) (r_avail s) (r_infl s) false (r_isrecv s) (r_base s) true)) []
+        ROk (kput st (mkR (r_id s) (r_win s) (r_avail s) (r_infl s) false (r_isrecv s) (r_base s) true (r_unl s))) []
       else
       match unclaimed (r_win s) (r_avail s) with
-      | None => ROk (kput st (mkR (r_id s) (r_win s) (r_avail s) (r_infl s) false (r_isrecv s) (r_base s) (r_done s))) []
+      | None => ROk (kput st (mkR (r_id s) (r_win s) (r_avail s) (r_infl s) false (r_isrecv s) (r_base s) (r_done s) (r_unl s))) []
       | Some incr =>
         if negb (in_i32r (r_win s + incr)) || (RMAXW <? r_win s + incr) then RPanic 7
-        else ROk (kput st (mkR (r_id s) (r_win s + incr) (r_avail s) (r_infl s) false (r_isrecv s) (r_base s) (r_done s)))
+        else ROk (kput st (mkR (r_id s) (r_win s + incr) (r_avail s) (r_infl s) false (r_isrecv s) (r_base s) (r_done s) (r_unl s)))
                  [RWU key incr]
       end
     end
